@@ -148,6 +148,8 @@ pub fn run(p: &Params) -> Run {
         one_case_joined(&mut run, &sch.defs, &gq.text, gq.is_aggregate, &lines, &joined_bytes, &jp);
     }
     let _ = std::fs::remove_file(&jpath);
+    // sixth stream: what the follow executor SHOWS (screen after every refresh = batch output over the lines so far)
+    crate::c11x::executor_stream(&mut run, &mut rng, p.n(150, 3_000));
     run.notes.push("statements without LIMIT (SELECT and aggregate, DISTINCT, HAVING) fed line by line with the default config; every prefix compared with a fresh batch run".to_owned());
     run
 }
